@@ -368,7 +368,7 @@ def shard(ctx):
         if r is not None:
             ctx.fail(case, r[0], r[1])
 
-    ctx.hyp(strat, one, ctx.per_shard(1500, 100000), "programs")
+    ctx.hyp(strat, one, ctx.per_shard(1000, 100000), "programs")
 
     # programs of the other properties' generators: match (C08), scoping programs (C06/C07), signatures and calls (C05), operator forms (C03)
     from vf import scopes as S
@@ -403,7 +403,7 @@ def shard(ctx):
         if r is not None:
             ctx.fail(case, r[0], r[1])
 
-    ctx.hyp(foreign, one_foreign, ctx.per_shard(2500, 150000), "foreign")
+    ctx.hyp(foreign, one_foreign, ctx.per_shard(1400, 150000), "foreign")
 
 
 MATCHERS = {}
